@@ -91,7 +91,28 @@ func flagArgs(flags uint8) []string {
 }
 
 func runBinary(dir string, args []string, stdin *string, tz string) (*BinResult, error) {
-	full := append([]string{"sign", dir}, args...)
+	// the directory argument as a user might type it: plain, with a trailing slash, or through a
+	// symbolic link followed by ".." (which the kernel resolves physically, not textually)
+	argDir := dir
+	switch len(dir) % 5 {
+	case 1:
+		argDir = dir + "/"
+	case 2:
+		deep := dir + "-deep"
+		if os.MkdirAll(filepath.Join(deep, "inner"), 0755) == nil && os.Rename(dir, filepath.Join(deep, "data")) == nil {
+			if os.Symlink(filepath.Join(deep, "inner"), dir+"-lnk") == nil {
+				argDir = dir + "-lnk/../data"
+			} else {
+				argDir = filepath.Join(deep, "data")
+			}
+			defer func() {
+				os.Rename(filepath.Join(deep, "data"), dir)
+				os.Remove(dir + "-lnk")
+				os.RemoveAll(deep)
+			}()
+		}
+	}
+	full := append([]string{"sign", argDir}, args...)
 	if len(dir)%3 == 0 {
 		full = append(full, "-d") // debug logging on: the log statements format their arguments
 	} else if len(dir)%3 == 1 {
